@@ -150,13 +150,19 @@ func c15(w *core.World, r *core.Report) {
 			r.Fail(name+"/eval-args", f.Pos(), "no EVAL found")
 			continue
 		}
+		// the three fields by what the constructor puts into them (electionFieldRoles, r7_n3.go), not by their names
+		keyF, idF, ttlF, okRoles := electionFieldRoles(w, r)
+		if !okRoles {
+			r.Undecided(name+"/eval-args", site.Pos(), "which fields of the election hold the lease key, the holder's id and the ttl cannot be read from (*redisCluster).NewElection (expected: one field stored from the key parameter, one from the id parameter, one from a field of the cluster object)")
+			continue
+		}
 		okArgs := len(rest) == 4
 		if okArgs {
 			one, isOne := core.ConstString(rest[0])
 			okArgs = isOne && one == "1" &&
-				core.IsFieldLoad(core.Unwrap(rest[1]), "redisElection", "key") &&
-				core.IsFieldLoad(core.Unwrap(rest[2]), "redisElection", "id") &&
-				core.IsFieldLoad(core.Unwrap(rest[3]), "redisElection", "ttl")
+				core.IsFieldLoad(core.Unwrap(rest[1]), "redisElection", keyF) &&
+				core.IsFieldLoad(core.Unwrap(rest[2]), "redisElection", idF) &&
+				core.IsFieldLoad(core.Unwrap(rest[3]), "redisElection", ttlF)
 		}
 		r.Check(okArgs && nDo == 1, name+"/eval-args", site.Pos(), "expected exactly one target call: EVAL script 1 <key> <id> <ttl> (calls=%d)", nDo)
 	}
